@@ -9,9 +9,12 @@ Stated over the key life-cycle LTS (`Compio.KeyLife`, the same `step` the model 
 Thread-pool operations are excluded from promptness (documented as not interruptible): `pollCancel` does
 nothing for them and io_uring has nothing to cancel.
 
-io_uring promptness needs two guards: the kernel honours `AsyncCancel` (A-K2, an assumption about the
-environment: the `kPost` in `iour_cancel_prompt`), and the cancel SQE is actually queued — `iour::Driver::cancel`
-drops it when the submission queue is full (finding F9, witness in `Compio.Cex.C05`).
+io_uring promptness has ONE condition left: the kernel honours `AsyncCancel` (A-K2, an assumption about the
+environment: the `kPost` in `iour_cancel_prompt`). The second one — the cancel SQE must find room in the submission
+queue (finding F9) — is gone since commit 0f15c6d: `iour::Driver::cancel` goes through `push_raw`, which the extractor
+reads from the source (`Gen.iourCancelUsesPushRaw = true`). `Compio.Cex.C05` keeps the pre-fix behaviour
+(`iourCancelUnfixed`) as a witness. Note that a cancel whose SQE overflows the queue now submits and reaps completions
+INSIDE `cancel` / `cancel_token` (`overflowDrain`).
 -/
 import Compio.Lemmas.KeyLifeCancel
 
@@ -23,20 +26,23 @@ open Compio Compio.KeyLife Compio.PollQueues
 
 /-- `Proactor::cancel` on an op whose `cancelled` flag is set (`set_cancelled()` returned true) only drops the
 key that was passed in: no driver action — no SQE, no queue change, no completed-channel entry. -/
-theorem cancel_again_no_driver_action (s : State) (id : Nat) (o : Op) (hc : o.cancelled = true) :
-    cancelKey s id o = { s with ops := modAt (fun o => { o with user := o.user - 1 }.dropRef) s.ops id } := by
+theorem cancel_again_no_driver_action (c : Cfg) (s : State) (id : Nat) (o : Op) (posts : List (Nat × Bool × Res))
+    (hc : o.cancelled = true) :
+    cancelKey c s id o posts = { s with ops := modAt (fun o => { o with user := o.user - 1 }.dropRef) s.ops id } := by
   unfold cancelKey; simp [hc]
 
 /-- `Proactor::cancel_token` on an op that is already cancelled or already completed returns `false` and
 leaves the driver and the op as they were (the temporary key from the upgrade is dropped again). -/
-theorem cancel_token_again_no_driver_action (s : State) (id : Nat) (o : Op) (ho : s.ops[id]? = some o)
+theorem cancel_token_again_no_driver_action (c : Cfg) (s : State) (id : Nat) (o : Op)
+    (posts : List (Nat × Bool × Res)) (ho : s.ops[id]? = some o)
     (hc : o.cancelled = true ∨ o.result.isSome = true) :
     cancelTokRet o = false ∧
-      (cancelTok s id o).sqLen = s.sqLen ∧ (cancelTok s id o).reg = s.reg ∧ (cancelTok s id o).armed = s.armed ∧
-      (∀ j, j ≠ id → (cancelTok s id o).ops[j]? = s.ops[j]?) ∧
-      ∃ x, (cancelTok s id o).ops[id]? = some x ∧ x.cancelSq = o.cancelSq ∧ x.chan = o.chan ∧
+      (cancelTok c s id o posts).sqLen = s.sqLen ∧ (cancelTok c s id o posts).reg = s.reg ∧
+      (cancelTok c s id o posts).armed = s.armed ∧
+      (∀ j, j ≠ id → (cancelTok c s id o posts).ops[j]? = s.ops[j]?) ∧
+      ∃ x, (cancelTok c s id o posts).ops[id]? = some x ∧ x.cancelSq = o.cancelSq ∧ x.chan = o.chan ∧
         x.user = o.user ∧ x.result = o.result ∧ x.kcancel = o.kcancel := by
-  refine ⟨?_, ?_, ?_, ?_, fun j hj => cancelTok_frame s id o hj, ?_⟩
+  refine ⟨?_, ?_, ?_, ?_, ?_, ?_⟩
   · unfold cancelTokRet
     rcases hc with h | h
     · simp [h]
@@ -44,18 +50,21 @@ theorem cancel_token_again_no_driver_action (s : State) (id : Nat) (o : Op) (ho 
       | none => rw [hr] at h; cases h
       | some r => simp
   all_goals unfold cancelTok; simp only [hc, if_true]
-  refine ⟨_, modAt_get (modAt_get ho), rfl, rfl, ?_, rfl, rfl⟩
-  simp only [Op.dropRef, Op.dropRefs, Op.cloneRef]; omega
+  · intro j hj
+    simp only [getElem?_modAt_ne _ _ (Ne.symm hj)]
+  · refine ⟨_, modAt_get (modAt_get ho), rfl, rfl, ?_, rfl, rfl⟩
+    simp only [Op.dropRef, Op.dropRefs, Op.cloneRef]; omega
 
 /-- **cancel after completion returns the genuine result**: a unique key with a result (`is_unique ∧
 has_result`) is not sent to the driver; the op goes back to the caller with exactly the stored result, and
 that result is one the kernel / `operate` / the pool closure produced (or ECANCELED from an earlier cancel). -/
 theorem cancel_after_complete_returns_genuine_result {c : Cfg} {d : Drv} {cap : Nat} {evs : List Event} {s : State}
     (h : run c (init d cap) evs = some s) {id : Nat} {o : Op} (ho : s.ops[id]? = some o)
-    (hc : o.cancelled = false) (hu : o.rc = 1) {r : Res} (hr : o.result = some r) :
-    (∃ x, (cancelKey s id o).ops[id]? = some x ∧ x.returned = o.returned + 1 ∧ x.result = some r ∧
+    (hc : o.cancelled = false) (hu : o.rc = 1) {r : Res} (hr : o.result = some r) (c' : Cfg)
+    (posts : List (Nat × Bool × Res)) :
+    (∃ x, (cancelKey c' s id o posts).ops[id]? = some x ∧ x.returned = o.returned + 1 ∧ x.result = some r ∧
         x.freed = o.freed) ∧
-      (cancelKey s id o).sqLen = s.sqLen ∧ (cancelKey s id o).reg = s.reg ∧
+      (cancelKey c' s id o posts).sqLen = s.sqLen ∧ (cancelKey c' s id o posts).reg = s.reg ∧
       (r ∈ o.produced ∨ r = ECANCELED) := by
   have hg := (reach_inv2 h id o ho).h_result r hr
   have hcond : o.rc = 1 ∧ o.result.isSome = true := ⟨hu, by rw [hr]; rfl⟩
@@ -94,19 +103,19 @@ theorem no_fabricated_success {c : Cfg} {d : Drv} {cap : Nat} {evs : List Event}
 * re-arms the poller for what remains on that descriptor (`renew`), other descriptors keep their interest,
 * touches no other operation,
 * emits exactly one completed-channel entry for `id`, carrying ECANCELED. -/
-theorem poll_cancel_local (s : State) (id : Nat) (o : Op) (hd : s.drv = .poll) (ho : s.ops[id]? = some o)
-    (hk : o.kind ≠ .blocking) :
-    (∀ fd dir, ((cancelIssue s id o).reg fd).sel dir =
+theorem poll_cancel_local (c : Cfg) (s : State) (id : Nat) (o : Op) (posts : List (Nat × Bool × Res))
+    (hd : s.drv = .poll) (ho : s.ops[id]? = some o) (hk : o.kind ≠ .blocking) :
+    (∀ fd dir, ((cancelIssue c s id o posts).reg fd).sel dir =
         if fd = o.fd then ((s.reg fd).sel dir).filter (· != id) else (s.reg fd).sel dir) ∧
-      (cancelIssue s id o).armed o.fd = ((cancelIssue s id o).reg o.fd).event ∧
-      (∀ fd, fd ≠ o.fd → (cancelIssue s id o).armed fd = s.armed fd) ∧
-      (∀ j, j ≠ id → (cancelIssue s id o).ops[j]? = s.ops[j]?) ∧
-      (∃ x, (cancelIssue s id o).ops[id]? = some x ∧ x.chan = o.chan ++ [ECANCELED] ∧ x.cancelled = true) := by
-  have hreg : (cancelIssue s id o).reg = upd s.reg o.fd ((s.reg o.fd).remove id) := by
+      (cancelIssue c s id o posts).armed o.fd = ((cancelIssue c s id o posts).reg o.fd).event ∧
+      (∀ fd, fd ≠ o.fd → (cancelIssue c s id o posts).armed fd = s.armed fd) ∧
+      (∀ j, j ≠ id → (cancelIssue c s id o posts).ops[j]? = s.ops[j]?) ∧
+      (∃ x, (cancelIssue c s id o posts).ops[id]? = some x ∧ x.chan = o.chan ++ [ECANCELED] ∧ x.cancelled = true) := by
+  have hreg : (cancelIssue c s id o posts).reg = upd s.reg o.fd ((s.reg o.fd).remove id) := by
     unfold cancelIssue driverCancel pollCancel; simp [hd, hk]
-  have harm : (cancelIssue s id o).armed = upd s.armed o.fd ((s.reg o.fd).remove id).event := by
+  have harm : (cancelIssue c s id o posts).armed = upd s.armed o.fd ((s.reg o.fd).remove id).event := by
     unfold cancelIssue driverCancel pollCancel; simp [hd, hk]
-  refine ⟨?_, ?_, ?_, fun j hj => cancelIssue_frame s id o hj, ?_⟩
+  refine ⟨?_, ?_, ?_, fun j hj => cancelIssue_frame_poll c s id o posts hd hj, ?_⟩
   · intro fd dir
     rw [hreg]
     by_cases hf : fd = o.fd
@@ -121,11 +130,11 @@ theorem poll_cancel_local (s : State) (id : Nat) (o : Op) (hd : s.drv = .poll) (
 /-- **promptness (polling)**: after such a cancel the very next `poll` — its first action is to drain the
 completed channel — completes the op, whatever the readiness of any descriptor. If nothing else was queued for
 it the result is ECANCELED. -/
-theorem poll_cancel_prompt {c : Cfg} (s : State) (id : Nat) (o : Op) (hd : s.drv = .poll)
-    (ho : s.ops[id]? = some o) (hk : o.kind ≠ .blocking) {s' : State}
-    (hp : step c (cancelIssue s id o) .pollBlocking = some s') :
+theorem poll_cancel_prompt {c : Cfg} (s : State) (id : Nat) (o : Op) (posts : List (Nat × Bool × Res))
+    (hd : s.drv = .poll) (ho : s.ops[id]? = some o) (hk : o.kind ≠ .blocking) {s' : State}
+    (hp : step c (cancelIssue c s id o posts) .pollBlocking = some s') :
     ∃ x, s'.ops[id]? = some x ∧ x.result = some ECANCELED ∧ x.chan = [] := by
-  obtain ⟨x, hx, hchan, _⟩ := (poll_cancel_local s id o hd ho hk).2.2.2.2
+  obtain ⟨x, hx, hchan, _⟩ := (poll_cancel_local c s id o posts hd ho hk).2.2.2.2
   simp only [step] at hp
   split at hp
   · obtain rfl := Option.some.inj hp
@@ -154,32 +163,34 @@ theorem token_register_holds_nothing {c : Cfg} {s s' : State} {id : Nat}
   · cases h
 
 /-- a token whose operation is gone (freed or handed back) cannot be upgraded: `cancel_token` does nothing -/
-theorem dead_token_does_nothing {c : Cfg} {s s' : State} {id : Nat} {o : Op} (ho : s.ops[id]? = some o)
-    (hrc : o.rc = 0) (h : step c s (.tokenCancel id) = some s') : s' = s ∧ cancelTokRet o = false := by
-  simp only [step] at h
-  split at h
-  · rename_i o' ho'
-    rw [ho] at ho'; obtain rfl := Option.some.inj ho'
-    split at h
-    · exact ⟨(Option.some.inj h).symm, by simp [cancelTokRet, hrc]⟩
-    · cases h
-  · cases h
+theorem dead_token_does_nothing {c : Cfg} {s s' : State} {id : Nat} {o : Op} {posts : List (Nat × Bool × Res)}
+    (ho : s.ops[id]? = some o) (hrc : o.rc = 0) (h : step c s (.tokenCancel id posts) = some s') :
+    s' = s ∧ cancelTokRet o = false :=
+  ⟨(tokenCancel_effect h).2.2 o ho hrc, by simp [cancelTokRet, hrc]⟩
+
+/-- "dealt with": flagged cancelled, or already released (then there is nothing left to cancel) -/
+def Done (x : Op) : Prop := x.cancelled = true ∨ x.rc = 0
 
 /-- **a fired `CancelToken` cancels exactly what was registered with it**: running the events of
-`CancelToken::cancel()` leaves every operation that is not registered untouched, and flags every registered
-operation that is still live. (For every order of the registered set: the statement holds for every list.) -/
-theorem token_cancels_exactly_the_registered {c : Cfg} :
+`CancelToken::cancel()` (for every order of the registered set — the statement is for every list — and whatever the
+kernel posts meanwhile, `env`)
+* never touches handles, flags or identity of an operation that is not registered (`Same`; it may progress on
+  io_uring, because a cancel that overflows the submission queue submits and reaps completions, but it is not
+  cancelled),
+* leaves every registered operation flagged cancelled — or released, if it completed and was let go before its turn,
+* and un-cancels nothing. -/
+theorem token_cancels_exactly_the_registered {c : Cfg} (env : Nat → List (Nat × Bool × Res)) :
     ∀ (regs : List Nat) (s s' : State),
-      run c s ((regs.map fun id => [Event.tokenCancel id, Event.tokenDrop id]).flatten) = some s' →
-      (∀ j, j ∉ regs → s'.ops[j]? = s.ops[j]?) ∧
-      (∀ id, id ∈ regs → ∀ o, s.ops[id]? = some o → (0 < o.rc ∨ o.cancelled = true) →
-        ∃ x, s'.ops[id]? = some x ∧ x.cancelled = true) := by
+      run c s ((regs.map fun id => [Event.tokenCancel id (env id), Event.tokenDrop id]).flatten) = some s' →
+      (∀ (j : Nat) (x : Op), j ∉ regs → s.ops[j]? = some x → ∃ x', s'.ops[j]? = some x' ∧ Same x x') ∧
+      (∀ id, id ∈ regs → ∀ o : Op, s.ops[id]? = some o → ∃ x, s'.ops[id]? = some x ∧ Done x) ∧
+      (∀ (i : Nat) (x : Op), s.ops[i]? = some x → ∃ x', s'.ops[i]? = some x' ∧ (Done x → Done x')) := by
   intro regs
   induction regs with
   | nil =>
     intro s s' h
     simp [run] at h; subst h
-    exact ⟨fun _ _ => rfl, fun _ h => by cases h⟩
+    exact ⟨fun j x _ hx => ⟨x, hx, Same.rfl' x⟩, fun _ hm => (by cases hm), fun i x hx => ⟨x, hx, fun hd => hd⟩⟩
   | cons a rest ih =>
     intro s s' h
     simp only [List.map_cons, List.flatten_cons, List.cons_append, List.nil_append, run] at h
@@ -187,139 +198,130 @@ theorem token_cancels_exactly_the_registered {c : Cfg} :
     · rename_i s1 hs1
       split at h
       · rename_i s2 hs2
-        obtain ⟨f1, c1⟩ := tokenCancel_effect hs1
+        obtain ⟨f1, c1, d1⟩ := tokenCancel_effect hs1
         obtain ⟨f2, c2⟩ := tokenDrop_effect hs2
-        obtain ⟨f3, c3⟩ := ih s2 s' h
-        constructor
-        · intro j hj
+        obtain ⟨g1, g2, g3⟩ := ih s2 s' h
+        -- every op survives the pair; `Done` is kept; the target is `Done` afterwards
+        have pair : ∀ (i : Nat) (x : Op), s.ops[i]? = some x → ∃ x2, s2.ops[i]? = some x2 ∧ (Done x → Done x2) ∧
+            (i ≠ a → Same x x2) ∧ (i = a → Done x2) := by
+          intro i x hx
+          by_cases hia : i = a
+          · subst hia
+            by_cases hp : 0 < x.rc
+            · obtain ⟨y, hy, hyc⟩ := c1 x hx hp
+              obtain ⟨z, hz, hzc, _⟩ := c2 y hy
+              exact ⟨z, hz, fun _ => Or.inl (by rw [hzc]; exact hyc), fun e => absurd rfl e,
+                fun _ => Or.inl (by rw [hzc]; exact hyc)⟩
+            · have h0 : x.rc = 0 := by omega
+              have := d1 x hx h0
+              subst this
+              obtain ⟨z, hz, hzc, hzr⟩ := c2 x hx
+              exact ⟨z, hz, fun _ => Or.inr (by rw [hzr]; exact h0), fun e => absurd rfl e,
+                fun _ => Or.inr (by rw [hzr]; exact h0)⟩
+          · obtain ⟨y, hy, hs⟩ := f1 i x hia hx
+            refine ⟨y, by rw [f2 i hia]; exact hy, ?_, fun _ => hs, fun e => absurd e hia⟩
+            intro hd
+            rcases hd with hd | hd
+            · exact Or.inl (by rw [hs.cancelled]; exact hd)
+            · exact Or.inr (hs.dead hd)
+        refine ⟨?_, ?_, ?_⟩
+        · intro j x hj hx
           have hja : j ≠ a := fun e => hj (by rw [e]; exact List.mem_cons_self)
           have hjr : j ∉ rest := fun e => hj (List.mem_cons_of_mem _ e)
-          rw [f3 j hjr, f2 j hja, f1 j hja]
-        · intro id hid o ho hlive
-          -- the op at `id` in s2: flagged if id = a, else as in s
-          have key : ∃ o2, s2.ops[id]? = some o2 ∧ ((0 < o2.rc ∨ o2.cancelled = true)) := by
-            by_cases hia : id = a
-            · subst hia
-              rcases hlive with hp | hcn
-              · obtain ⟨x, hx, hxc⟩ := c1 o ho hp
-                obtain ⟨y, hy, hyc, _⟩ := c2 x hx
-                exact ⟨y, hy, Or.inr (by rw [hyc]; exact hxc)⟩
-              · -- already cancelled: the flag is never cleared
-                by_cases hp : 0 < o.rc
-                · obtain ⟨x, hx, hxc⟩ := c1 o ho hp
-                  obtain ⟨y, hy, hyc, _⟩ := c2 x hx
-                  exact ⟨y, hy, Or.inr (by rw [hyc]; exact hxc)⟩
-                · have h0 : o.rc = 0 := by omega
-                  have := (dead_token_does_nothing ho h0 hs1).1
-                  subst this
-                  obtain ⟨y, hy, hyc, _⟩ := c2 o ho
-                  exact ⟨y, hy, Or.inr (by rw [hyc]; exact hcn)⟩
-            · refine ⟨o, ?_, hlive⟩
-              rw [f2 id hia, f1 id hia]; exact ho
-          obtain ⟨o2, ho2, hl2⟩ := key
+          obtain ⟨x2, hx2, _, hs, _⟩ := pair j x hx
+          obtain ⟨x', hx', hs'⟩ := g1 j x2 hjr hx2
+          exact ⟨x', hx', (hs hja).trans hs'⟩
+        · intro id hid o ho
+          obtain ⟨x2, hx2, _, _, hda⟩ := pair id o ho
           by_cases hir : id ∈ rest
-          · exact c3 id hir o2 ho2 hl2
-          · -- `id = a` and not registered again: the flag set by the first pair survives
-            rw [f3 id hir]
-            have hia : id = a := by
+          · exact g2 id hir x2 hx2
+          · have hia : id = a := by
               rcases List.mem_cons.mp hid with h1 | h1
               · exact h1
               · exact absurd h1 hir
-            subst hia
-            rcases hlive with hp | hcn
-            · obtain ⟨x, hx, hxc⟩ := c1 o ho hp
-              obtain ⟨y, hy, hyc, _⟩ := c2 x hx
-              exact ⟨y, hy, by rw [hyc]; exact hxc⟩
-            · by_cases hp : 0 < o.rc
-              · obtain ⟨x, hx, hxc⟩ := c1 o ho hp
-                obtain ⟨y, hy, hyc, _⟩ := c2 x hx
-                exact ⟨y, hy, by rw [hyc]; exact hxc⟩
-              · have h0 : o.rc = 0 := by omega
-                have := (dead_token_does_nothing ho h0 hs1).1
-                subst this
-                obtain ⟨y, hy, hyc, _⟩ := c2 o ho
-                exact ⟨y, hy, by rw [hyc]; exact hcn⟩
+            obtain ⟨x', hx', hd'⟩ := g3 id x2 hx2
+            exact ⟨x', hx', hd' (hda hia)⟩
+        · intro i x hx
+          obtain ⟨x2, hx2, hd, _, _⟩ := pair i x hx
+          obtain ⟨x', hx', hd'⟩ := g3 i x2 hx2
+          exact ⟨x', hx', fun h => hd' (hd h)⟩
       · cases h
     · cases h
 
 /-- the events of `CancelToken::cancel()` are exactly one `cancel_token` per registered operation; a second
 `cancel()` issues nothing -/
-theorem token_cancel_events (t : Token) :
-    (t.fired = false → (t.cancel).2 = (t.regs.map fun id => [Event.tokenCancel id, Event.tokenDrop id]).flatten ∧
-        (t.cancel).1.fired = true ∧ (t.cancel).1.regs = []) ∧
-      (t.fired = true → (t.cancel).2 = [] ∧ (t.cancel).1 = t) := by
+theorem token_cancel_events (t : Token) (env : Nat → List (Nat × Bool × Res)) :
+    (t.fired = false →
+        (t.cancel env).2 = (t.regs.map fun id => [Event.tokenCancel id (env id), Event.tokenDrop id]).flatten ∧
+        (t.cancel env).1.fired = true ∧ (t.cancel env).1.regs = []) ∧
+      (t.fired = true → (t.cancel env).2 = [] ∧ (t.cancel env).1 = t) := by
   constructor <;> intro h <;> simp [Token.cancel, h]
 
-/-- **registration after the token fired**: the operation is cancelled at once, through a clone of its key -/
-theorem late_registration_cancels {c : Cfg} (t : Token) (ht : t.fired = true) (id : Nat) {s s' : State}
-    (h : run c s (t.register id).2 = some s') :
-    (t.register id).2 = [.cloneCancel id] ∧ (∀ j, j ≠ id → s'.ops[j]? = s.ops[j]?) ∧
+/-- **registration after the token fired**: the operation is cancelled at once, through a clone of its key; no other
+operation is cancelled -/
+theorem late_registration_cancels {c : Cfg} (t : Token) (ht : t.fired = true) (id : Nat)
+    (posts : List (Nat × Bool × Res)) {s s' : State} (h : run c s (t.register id posts).2 = some s') :
+    (t.register id posts).2 = [.cloneCancel id posts] ∧
+      (∀ (j : Nat) (x : Op), j ≠ id → s.ops[j]? = some x → ∃ x', s'.ops[j]? = some x' ∧ Same x x') ∧
       ∃ x, s'.ops[id]? = some x ∧ x.cancelled = true := by
-  have he : (t.register id).2 = [.cloneCancel id] := by simp [Token.register, ht]
+  have he : (t.register id posts).2 = [.cloneCancel id posts] := by simp [Token.register, ht]
   rw [he] at h
   simp only [run] at h
   split at h
   · rename_i s1 hs1
     obtain rfl := Option.some.inj h
-    refine ⟨he, ?_, ?_⟩
-    · intro j hj
-      simp only [step] at hs1
+    simp only [step] at hs1
+    split at hs1
+    · rename_i o ho
       split at hs1
-      · split at hs1
-        · obtain rfl := Option.some.inj hs1
-          rw [cancelKey_frame _ _ _ hj]
-          exact getElem?_modAt_ne _ _ (Ne.symm hj)
-        · cases hs1
-      · cases hs1
-    · simp only [step] at hs1
-      split at hs1
-      · rename_i o ho
-        split at hs1
-        · obtain rfl := Option.some.inj hs1
-          have h0 : ({ s with ops := modAt (fun o => ({ o.cloneRef with user := o.user + 1 } : Op)) s.ops id } :
-              State).ops[id]? = some { o.cloneRef with user := o.user + 1 } := by
-            simp only [getElem?_modAt_self, ho, Option.map_some]
-          unfold cancelKey
+      · obtain rfl := Option.some.inj hs1
+        have h0 : ({ s with ops := modAt (fun o => ({ o.cloneRef with user := o.user + 1 } : Op)) s.ops id } :
+            State).ops[id]? = some { o.cloneRef with user := o.user + 1 } := modAt_get ho
+        refine ⟨he, ?_, ?_⟩
+        · intro j x hj hx
+          refine cancelKey_same c _ id _ posts hj ?_
+          show (modAt _ s.ops id)[j]? = some x
+          rw [getElem?_modAt_ne _ _ (Ne.symm hj)]; exact hx
+        · unfold cancelKey
           split
           · rename_i hc
             exact ⟨_, modAt_get h0, hc⟩
           · split
             · exact ⟨_, modAt_get h0, rfl⟩
-            · obtain ⟨x, hx, hxc, _⟩ := cancelIssue_cancelled _ id _ h0
-              exact ⟨x, hx, hxc⟩
-        · cases hs1
+            · exact cancelIssue_cancelled c _ id _ posts h0
       · cases hs1
+    · cases hs1
   · cases h
 
-/-! ### promptness on io_uring, under its two guards -/
+/-! ### promptness on io_uring: only the kernel is assumed -/
 
-/-- what `iour::Driver::cancel` does with the AsyncCancel SQE: queued when the SQ has room, DROPPED when it is
-full (the op is flagged cancelled and `cancel_token` reports `true` in both cases) -/
-theorem iour_cancel_sqe (s : State) (id : Nat) (o : Op) (hd : s.drv = .iour) (ho : s.ops[id]? = some o) :
-    (s.sqLen < s.cap →
-        (cancelIssue s id o).sqLen = s.sqLen + 1 ∧
-        ∃ x, (cancelIssue s id o).ops[id]? = some x ∧ x.cancelSq = o.cancelSq + 1 ∧ x.cancelDropped = o.cancelDropped ∧
-          x.kstat = o.kstat ∧ x.cancelled = true) ∧
-      (¬ s.sqLen < s.cap →
-        (cancelIssue s id o).sqLen = s.sqLen ∧
-        ∃ x, (cancelIssue s id o).ops[id]? = some x ∧ x.cancelSq = o.cancelSq ∧ x.cancelDropped = o.cancelDropped + 1 ∧
-          x.kstat = o.kstat ∧ x.cancelled = true) := by
-  constructor <;> intro hroom
-  all_goals
-    unfold cancelIssue driverCancel iourCancel
-    simp only [hd, hroom, if_true, if_false]
-    refine ⟨?_, _, modAt_get (modAt_get (modAt_get ho)), rfl, rfl, rfl, rfl⟩
-    first | rfl | trivial
+/-- **the cancel request is never lost** (repair of F9, `c.cancelPushRaw = true` — what the extractor reads from the
+source): whatever the occupancy of the submission queue, after `Driver::cancel` the AsyncCancel SQE of the op sits
+in the queue, nothing was dropped, and the op is flagged. With a full queue the driver first submitted and drained. -/
+theorem iour_cancel_always_queued (c : Cfg) (hc : c.cancelPushRaw = true) (s : State) (id : Nat) (o : Op)
+    (posts : List (Nat × Bool × Res)) (hd : s.drv = .iour) (ho : s.ops[id]? = some o) :
+    0 < (cancelIssue c s id o posts).sqLen ∧
+      ∃ x, (cancelIssue c s id o posts).ops[id]? = some x ∧ 0 < x.cancelSq ∧ x.cancelDropped = o.cancelDropped ∧
+        x.cancelled = true := by
+  have h1 : ({ s with ops := modAt (fun o => { o with cancelled := true }) s.ops id } : State).ops[id]?
+      = some { o with cancelled := true } := modAt_get ho
+  obtain ⟨hq, z, hz, hz1, hz2, hz3⟩ :=
+    iourCancel_at c hc { s with ops := modAt (fun o => { o with cancelled := true }) s.ops id } id posts h1
+  simp only [cancelIssue]
+  rw [driverCancel_iour c { s with ops := modAt (fun o => { o with cancelled := true }) s.ops id } id o posts hd]
+  exact ⟨hq, _, modAt_get hz, by simp only [Op.dropRef, Op.dropRefs]; exact hz1,
+    by simp only [Op.dropRef, Op.dropRefs]; exact hz2, by simp only [Op.dropRef, Op.dropRefs]; exact hz3⟩
 
-/-- **promptness (io_uring), guarded**: if the submission queue is NOT full when the cancel is issued, the
-AsyncCancel reaches the kernel with the next submit (`kcancel`), and as soon as the kernel answers for the
-target — A-K2: it posts a final CQE, `-ECANCELED` or the genuine result — the same poll completes the op with
-exactly that value. -/
-theorem iour_cancel_prompt {c : Cfg} (s : State) (id : Nat) (o : Op) (hd : s.drv = .iour)
-    (ho : s.ops[id]? = some o) (hroom : s.sqLen < s.cap) (r : Res) {s' : State}
-    (h : run c (cancelIssue s id o) [.submit, .kPost id false r, .pollEntries] = some s') :
+/-- **promptness (io_uring)**, without any condition on the submission queue: the AsyncCancel reaches the kernel with
+the next submit (`kcancel`), and as soon as the kernel answers for the target — A-K2: it posts a final CQE,
+`-ECANCELED` or the genuine result — the same poll completes the op with exactly that value. (If the op already
+completed inside the cancel's own overflow round, the kernel has nothing left to post and the hypothesis is void:
+the op is complete anyway.) -/
+theorem iour_cancel_prompt {c : Cfg} (hc : c.cancelPushRaw = true) (s : State) (id : Nat) (o : Op)
+    (posts : List (Nat × Bool × Res)) (hd : s.drv = .iour) (ho : s.ops[id]? = some o) (r : Res) {s' : State}
+    (h : run c (cancelIssue c s id o posts) [.submit, .kPost id false r, .pollEntries] = some s') :
     ∃ x, s'.ops[id]? = some x ∧ x.kcancel = true ∧ x.result = some r ∧ x.inFl = false ∧ x.kstat = .done := by
-  obtain ⟨x0, hx0, hsq, _, _, _⟩ := ((iour_cancel_sqe s id o hd ho).1 hroom).2
+  obtain ⟨_, x0, hx0, hsq, _, _⟩ := iour_cancel_always_queued c hc s id o posts hd ho
   simp only [run] at h
   split at h
   · rename_i s1 hs1
@@ -338,27 +340,30 @@ theorem iour_cancel_prompt {c : Cfg} (s : State) (id : Nat) (o : Op) (hd : s.drv
     · cases h
   · cases h
 
+/-- the code as it is (what the extractor reads) is the repaired one -/
+theorem gen_cancel_is_repaired : Cfg.gen.cancelPushRaw = true := rfl
+
 /-! ### non-vacuity -/
 
 /-- three receives wait on one descriptor of the polling driver; the middle one is cancelled through a token:
 the queue keeps the other two in order, the poller stays armed for the head, one ECANCELED entry is queued -/
 example :
     (run Cfg.gen (init .poll 8) [.pushWait .single 0 .rd, .pushWait .single 0 .rd, .pushWait .single 0 .rd,
-        .tokenRegister 1, .tokenCancel 1]).map
+        .tokenRegister 1, .tokenCancel 1 []]).map
       (fun s => ((s.reg 0).rq, (s.armed 0).key, s.ops.map fun o => (o.cancelled, o.chan, o.rc)))
     = some ([0, 2], some 0, [(false, [], 2), (true, [ECANCELED], 2), (false, [], 2)]) := by rfl
 
 /-- … the next poll completes it; the neighbours complete later with their own data -/
 example :
     (run Cfg.gen (init .poll 8) [.pushWait .single 0 .rd, .pushWait .single 0 .rd, .pushWait .single 0 .rd,
-        .tokenRegister 1, .tokenCancel 1, .pollBlocking, .fdEvent 0 true false (some (.ok 4)),
+        .tokenRegister 1, .tokenCancel 1 [], .pollBlocking, .fdEvent 0 true false (some (.ok 4)),
         .fdEvent 0 true false (some (.ok 4))]).map
       (fun s => ((s.reg 0).rq, s.ops.map fun o => (o.result, o.rc)))
     = some ([], [(some (.ok 4), 1), (some ECANCELED, 1), (some (.ok 4), 1)]) := by rfl
 
-/-- io_uring with room in the SQ: cancel, submit, the kernel answers, the poll completes the op -/
+/-- io_uring: cancel, submit, the kernel answers, the poll completes the op -/
 example :
-    (run Cfg.gen (init .iour 8) [.pushSq .single 0 .rd, .submit, .tokenRegister 0, .tokenCancel 0, .submit,
+    (run Cfg.gen (init .iour 8) [.pushSq .single 0 .rd, .submit, .tokenRegister 0, .tokenCancel 0 [], .submit,
         .kPost 0 false ECANCELED, .pollEntries, .userPop 0]).map
       (fun s => s.ops.map fun o => (o.kcancel, o.result, o.returned, o.cancelDropped))
     = some [(true, some ECANCELED, 1, 0)] := by rfl
@@ -366,8 +371,16 @@ example :
 /-- cancel after completion: the unique key gets its genuine result back, nothing goes to the driver -/
 example :
     (run Cfg.gen (init .iour 8) [.pushSq .single 0 .rd, .submit, .kPost 0 false (.ok 4), .pollEntries,
-        .userCancel 0]).map
+        .userCancel 0 []]).map
       (fun s => (s.sqLen, s.ops.map fun o => (o.result, o.returned, o.cancelSq, o.freed)))
     = some (0, [(some (.ok 4), 1, 0, 0)]) := by rfl
+
+/-- io_uring with a FULL submission queue (capacity 2, two receives pushed, nothing submitted): the cancel submits
+the two receives, queues its SQE, and the next submit carries it to the kernel — the former F9 situation -/
+example :
+    (run Cfg.gen (init .iour 2) [.pushSq .single 0 .rd, .pushSq .single 1 .rd, .tokenRegister 0, .tokenCancel 0 [],
+        .submit, .kPost 0 false ECANCELED, .pollEntries, .userPop 0]).map
+      (fun s => s.ops.map fun o => (o.kstat, o.kcancel, o.result, o.returned, o.cancelDropped))
+    = some [(.done, true, some ECANCELED, 1, 0), (.inflight, false, none, 0, 0)] := by rfl
 
 end Compio.Props.C05
